@@ -181,7 +181,12 @@ def parseCase (toks : List String) : Option Case := do
   let set := parseSettings (nat ((field toks "fl").getD "0")) (nat ((field toks "to").getD "0"))
   let variant := if (field toks "mv") == some "current" then Variant.current else Variant.fixed
   let single := (listOf ((field toks "ms").getD "-") "+").map nat
-  pure { P := mkParams rules imports mx walking (mkFacts ins) single, set := set, inputs := ins, variant := variant }
+  let chains := (listOf ((field toks "mc").getD "-") ",").filterMap fun t =>
+    match t.splitOn ":" with
+    | [i, p, gmin, gmax, tl] =>
+      some (nat i, ({ prev := if p == "-1" then none else some (nat p), gapMin := nat gmin, gapMax := nat gmax, isTail := tl == "1" } : ChainInfo))
+    | _ => none
+  pure { P := mkParams rules imports mx walking (mkFacts ins) single chains, set := set, inputs := ins, variant := variant }
 
 structure St where
   sc : Sc
